@@ -6,6 +6,8 @@ import os
 import sys
 import time
 
+from ..common import CLOCK
+
 REPORT = os.environ.get("VF_FUZZ_REPORT")
 
 
@@ -21,7 +23,7 @@ class Reporter:
         self.executions += 1
         if nontrivial:
             self.nontrivial += 1
-        now = time.time()
+        now = time.time() - CLOCK.offset
         if now - self._last > 2.0:
             self.write()
             self._last = now
@@ -41,7 +43,7 @@ class Reporter:
         from ..common import jsonable
         tmp = REPORT + ".tmp"
         with open(tmp, "w") as f:
-            json.dump({"executions": self.executions, "nontrivial": self.nontrivial, "seconds": round(time.time() - self.t0, 1),
+            json.dump({"executions": self.executions, "nontrivial": self.nontrivial, "seconds": round(time.time() - CLOCK.offset - self.t0, 1),
                        "discrepancies": [jsonable(v) for v in self.found.values()]}, f)
         os.replace(tmp, REPORT)
 
